@@ -132,6 +132,9 @@ def oracle(case, canon, obs):
             got = out.get("cls")
             if case["kind"] == "batch" and "builtins.StopIteration" in mro and got == "builtins.RuntimeError":
                 bad.append(("batch-stopiteration-becomes-runtimeerror", "%s: a batch member raising StopIteration reaches the caller as RuntimeError (raised inside the result generator)" % where))
+            elif k == "client" and got == cls:
+                bad.append(("traceback-missing", "%s: %s arrives without the remote traceback text%s" % (
+                    where, short, " (another worker answered a call that raised the same exception instance while this reply was being serialised)" if case.get("concurrent") else "")))
             elif case["kind"] == "batch" and case["ser"] == "marshal" and k == "sererr":
                 bad.append(("marshal-batch-unmarshallable", "%s: marshal converts only the top-level object, the batch result list holding the wrapped exception is unmarshallable; caller got %s" % (where, got)))
             else:
@@ -167,6 +170,12 @@ def oracle(case, canon, obs):
             bad.extend(tb_violation(where + " (generic error)", out.get("tbtok") or "TB:?@?", canon, case))
         if k == "fallback" and not out["tb"]:
             bad.append(("traceback-missing", "%s: the fallback error carries no remote traceback" % where))
+    nested = obs.get("nested")
+    if nested is not None and (k in ("raised", "fallback") or (k == "client" and out.get("cls") == cls)):
+        # the second, concurrent call that raised the same instance must get its own complete error reply as well
+        ntok = [kv[1] for kv in nested.get("attrs", []) if kv[0] == "_pyroTraceback"] if nested["o"] == "raised" else [nested.get("tbtok")]
+        if nested["o"] not in ("raised", "fallback") or not ntok or ntok[0] != c07impl.expected_token(canon["entry"]):
+            bad.append(("traceback-missing", "%s: the concurrent second call raising the same exception instance got %s without this call's remote traceback" % (where, nested.get("cls", nested["o"]))))
     if k not in ("local",) and not obs["next_ok"]:
         fam = "SecurityError" if SEC in mro else ("SerializeError" if SERR in mro else "other-class")
         bad.append(("dead-connection-after:" + fam, "%s: the next call on the same proxy failed with %s (server closed the connection after replying, client kept it)" % (where, obs.get("next_exc"))))
@@ -274,6 +283,9 @@ def gen_cases(ctx, classes):
                         case["depth"] = rng.choice(c07impl.DEPTHS[1:])       # raised that many calls below the entry point
                     if rng.random() < (0.5 if kind in ("attr", "setattr") else 0.15):
                         case["hooks"] = True                                 # target class defines __getattr__ / __setattr__
+                    if kind != "batch" and rng.random() < 0.06:
+                        # two workers answer calls that raised the same instance; see c07impl.DumpsGate
+                        case["concurrent"] = True
                     if rng.random() < 0.2:
                         # history: the same exception instance was already raised once, from another entry point
                         case["prior"] = rng.choice([k for k in c07impl.KINDS if k != kind])
@@ -321,6 +333,11 @@ def targeted():
                 ("__main__.DunderModuleError", ["m"], []),
             ]:
                 out.append(dict({"ser": ser, "kind": kind, "cls": cls, "args": args, "attrs": attrs}, **b))
+            if kind != "batch":
+                out.append({"ser": ser, "kind": kind, "concurrent": True, "cls": "builtins.ValueError", "args": ["resource is poisoned", 42],
+                            "attrs": [["resource", "db-7"], ["retry_after", 30]]})
+                out.append({"ser": ser, "kind": kind, "concurrent": True, "depth": 10, "cls": "Pyro5.errors.NamingError", "args": ["n"],
+                            "attrs": [["payload", dict(c07impl.OPAQUE)]]})
             for depth in c07impl.DEPTHS[1:]:
                 out.append(dict({"ser": ser, "kind": kind, "depth": depth, "cls": "builtins.ValueError", "args": ["deep", depth], "attrs": []}, **b))
             out.append(dict({"ser": ser, "kind": kind, "depth": 200, "cls": "builtins.KeyError", "args": ["k"], "attrs": [["payload", dict(c07impl.OPAQUE)]]}, **b))
@@ -430,7 +447,8 @@ def run(ctx, model_ok=True):
                 "None/bool/int/str/list/dict, 5 in 12 with unserialisable content in args or attributes: a bare object(), objects whose "
                 "__getstate__ / unassigned slot / __dict__ property / dict or list protocol raises a class drawn from a pool of 16 "
                 "(AttributeError, KeyError, RuntimeError, ZeroDivisionError, OSError, a user class, ...), a list nested 5000 deep; "
-                "1 in 5 cases with a history (the same exception instance raised before by another entry point / serializer); "
+                "6% of the non-batch cases in a forced two-worker interleaving (a second client's complete call raising the same instance "
+                "runs while the first reply is at serializer.dumps); 1 in 5 cases with a history (the same exception instance raised before by another entry point / serializer); "
                 "the class of the serializer's error is measured per case by calling serializer.dumps directly; classes whose "
                 "constructor rejects every tried argument tuple are skipped and counted; distinct = distinct case hash")
     res.samples = [c for c in cases if "alt_args" not in c][:5]
